@@ -322,7 +322,11 @@ func runC11(r *Run) {
 			return "[" + strings.Join(xs, ", ") + "]"
 		}
 		L := big(21900)
-		for _, src := range []string{"if(b, 0, len(" + L + "))", "b || len(" + L + ") > 0", "if(b, len(" + L + "), 0)", "f && len(" + L + ") > 0", "if(b, 1, 2) + len(" + L + ")"} {
+		srcs := []string{"if(b, 0, len(" + L + "))", "b || len(" + L + ") > 0", "if(b, len(" + L + "), 0)", "f && len(" + L + ") > 0", "if(b, 1, 2) + len(" + L + ")"}
+		if r.Tier != "thorough" {
+			srcs = srcs[:2]
+		}
+		for _, src := range srcs {
 			judge(evalCase{src, false})
 			r.Count("64K-boundary programs")
 		}
